@@ -198,6 +198,20 @@ impl TaskManager {
 		}
 	}
 
+	/// Tells the background tasks to exit without waiting for them (for a
+	/// synchronous caller that gives up on a half-opened store). They hold a
+	/// reference to the store until they are gone.
+	pub(crate) fn abort(&self) {
+		self.stop_flag.store(true, Ordering::SeqCst);
+		self.memtable_notify.notify_one();
+		self.level_notify.notify_one();
+		if let Some(task_handles) = self.task_handles.lock().unwrap().take() {
+			for handle in task_handles {
+				handle.abort();
+			}
+		}
+	}
+
 	pub async fn stop(&self) {
 		// Set the stop flag to prevent new operations from starting
 		self.stop_flag.store(true, Ordering::SeqCst);
